@@ -73,7 +73,18 @@ theorem editsOp_ok (q : Bool) (F : Nat) (a : Ghost) (hE : EditsHyp q F a) (n : N
   | .str l e, hI => exact ⟨_, _, rfl, Keeps.refl _ _ hI⟩
   | .kvp l k v, hI => exact ⟨_, _, rfl, Keeps.refl _ _ hI⟩
   | .fixed l s t, hI => exact ⟨_, _, rfl, Keeps.refl _ _ hI⟩
-  | .ed l s c, hI => exact hE n P _ hI rfl
+  | .ed l s c, hI =>
+    obtain ⟨inv, hmu⟩ := (ed_I a F n l s c).mp hI
+    obtain ⟨s1, c1, e1, ek1, hsome⟩ := edEnsure_ok P q F inv hmu
+    obtain ⟨tr, htr⟩ := Option.isSome_iff_exists.mp hsome
+    have hcv := ek1.inv.cv tr htr
+    have hval : TrValid s1 tr.reverse := by
+      intro x hx
+      rw [hcv] at hx
+      exact ptrace_valid s1 _ _ _ _ (Nat.le_refl _) (Nat.le_refl _) x (List.mem_reverse.mp hx)
+    obtain ⟨names, en⟩ := pathNames_ok s1 tr.reverse c1 ek1.inv.shape hval
+    exact ⟨.ed l s1 c1, some (List.replicate s1.pre "Match" ++ names ++ List.replicate s1.suf "Match"),
+      (by simp [editsOp, e1, htr, en, bind, Except.bind, pure, Except.pure]), ed_keeps (n := n) (a := a) (F := F) hI ek1⟩
   | .coll l s p r, hI =>
     obtain ⟨inv, _⟩ := (coll_I a F n l s p r).mp hI
     obtain ⟨ck1, _⟩ := collExpandAll_ok P s p r inv
